@@ -16,7 +16,8 @@ import pandas as pd
 
 from . import common, pipecheck, scenes
 
-LABELINGS = ['shuffled', 'offset', 'float', 'string', 'concat_repeats', 'all_equal', 'random_repeats', 'negative']
+LABELINGS = ['shuffled', 'offset', 'float', 'string', 'concat_repeats', 'all_equal', 'random_repeats', 'negative', 'sorted_repeats',
+             'timestamp']
 LAYOUTS = ['col_perm', 'extra_cols', 'dtype_obj_ceilo', 'dtype_int_dt', 'dtype_int_height', 'dtype_float_type',
            'dtype_int8_type', 'dtype_object_all']
 RENAMINGS = ['reverse_order', 'ten_nine', 'substring', 'whitespace', 'long', 'unicode', 'empty_ish', 'swap', 'concat_collision', 'concat_collision']
@@ -25,7 +26,8 @@ RENAMINGS = ['reverse_order', 'ten_nine', 'substring', 'whitespace', 'long', 'un
 def observe(obs):
     """Everything C10/C16 compare, as hashable protocol strings (floats as exact fractions)."""
     if obs['exc']:
-        return {'exc': obs['exc'] + ':' + str(obs.get('exc_msg'))[:80]}
+        # the exception class and the stage it came from; the message text may legitimately quote labels or names
+        return {'exc': obs['exc'] + ' at ' + str(obs.get('stage'))}
     c = obs['chunk']
     return {
         'data': [(common.frac(dt), common.frac(h), t) for _, dt, h, t in obs['data']],
@@ -72,6 +74,10 @@ def relabel(df, how, rng):
         out.index = [rng.randrange(max(1, n // 3)) for _ in range(n)]
     elif how == 'negative':
         out.index = [-(i * 3) for i in range(n)]
+    elif how == 'sorted_repeats':
+        out.index = [i // rng.choice([2, 3]) for i in range(n)]          # repeated AND ascending
+    elif how == 'timestamp':
+        out.index = list(df['dt'])                                        # the time stamp as label: repeats for multi-hit measurements
     return out
 
 
@@ -154,7 +160,8 @@ def rename_map(names, how, rng, rows=None):
 def _work(args):
     seed, k, prop = args
     rng = random.Random(f'{seed}:{prop}:{k}')
-    fam = rng.choice(['synth', 'synth', 'crop', 'split', 'chain', 'exact', 'degenerate', 'drift', 'drift', 'bundle'] + (['sync', 'sync', 'sync'] if prop == 'C16' else []))
+    fam = rng.choice(['synth', 'synth', 'crop', 'split', 'chain', 'exact', 'degenerate', 'drift', 'drift', 'bundle']
+                     + (['sync', 'sync', 'sync', 'owned', 'owned', 'owned'] if prop == 'C16' else []))
     if fam == 'sync':
         # several ceilometers on the same time grid, different heights inside one layer, look-back cutting a time step
         nc = rng.choice([2, 3])
@@ -168,7 +175,7 @@ def _work(args):
         # the time axis is relative to an arbitrary reference: scenes whose last measurement is at dt = 0 or later
         shift = rng.choice([0.0, 60.0, 450.0]) - max(r[1] for r in rows)
         rows = [(c, float(dt + shift), h, t) for c, dt, h, t in rows]
-    if prop == 'C16' and rng.random() < 0.6:
+    if prop == 'C16' and rng.random() < 0.6 and fam != 'owned':
         names = sorted({r[0] for r in rows})
         prms = dict(prms)
         prms['EXCLUDE_FOR_BASE_HEIGHT_CALC'] = rng.sample(names, rng.randint(1, len(names)))
